@@ -268,23 +268,7 @@ def check(ctx):
                     kinds = [k for k, _ in s.yields]
                     run.check(kinds == ['identity'] and not s.drains, 'R6c', where(ctx.repo, rl.node), rl.fi.qualname,
                               stream.fmt_atoms(s.atoms), 'unselected resource does not pass through unchanged: ' + s.describe())
-    # a step that builds a matcher and does more to a resource stream than hand it on must ask the matcher in the stream phase
-    # too: deciding by some other recorded state (what the package phase stored for a name, a cache from an earlier run) selects
-    # differently from the selector as soon as that state and the selector disagree
-    for f in [x for x in funcs if x.name != 'process_datapackage'] + cls_steps:
-        seeds = ['package'] if f.name != 'process_resources' else [f.params[1]]
-        for rl in find_resloops(ctx.repo, ctx.res, f, seeds):
-            if rl.kind != 'for' or rl.fi is not f:     # a loop reached through super() belongs to the rows-level clause
-                continue
-            sigs, at = resloop_signature(ctx.repo, ctx.res, rl)
-            if any(a[0] in ('MATCH', 'EQ', 'IN') for s in sigs for a in s.atoms):
-                run.ok('R6c', where(ctx.repo, rl.node), rl.fi.qualname + ' stream phase asks the matcher')
-                continue
-            plain = all([k for k, _ in s.yields] == ['identity'] and not s.drains and not s.defers for s in sigs if s.term != 'raise')
-            run.check(plain, 'R6c', where(ctx.repo, rl.node), rl.fi.qualname, 'stream phase asks the matcher',
-                      'the step builds a ResourceMatcher but its resource loop wraps / drops / replaces resources without asking it: '
-                      'which resources are touched is decided by something other than the selector')
-            n6 += 1
+    n6 += stream.r6_matcher_asked(ctx, [x for x in funcs if x.name != 'process_datapackage'] + cls_steps)
     from sa.model import rows_steps
     for f in rows_steps(ctx.repo):
         if any(ctx.res.instantiates(n, 'ResourceMatcher') for n in ast.walk(f.node) if isinstance(n, ast.Call)):
@@ -293,6 +277,9 @@ def check(ctx):
     run.floor('R6c', n6, 20, 'unmatched-path instances')
     n29 = stream.r29_no_shared_fields(ctx, stream.package_phase_functions(ctx))
     run.floor('R29', n29, 8, 'schema field stores')
+    # concatenate's run detection: an unselected resource next to the selected run is neither swallowed nor reordered
+    from checks import C16 as _C16
+    _C16.concatenate_clauses(ctx)
     matchers.r10_arity(ctx)
     run.trusted += ['re: a pattern ^x$ used with match() accepts exactly the names x fully matches (modulo a trailing newline)']
     run.not_decided += ['regex semantics on names with metacharacters beyond anchoring',
